@@ -146,3 +146,47 @@ func VerifC14SlowSubscriber() {
 	vAssert(vLive() == 0, "no goroutine is left blocked")
 	vCover("c14-slow-subscriber-end")
 }
+
+// VerifC14OwnQueueFull: a client subscribed to its own topic publishes without ever
+// acknowledging what comes back: window (1) and queue (1) fill up and the next publish cannot
+// be queued. Only this client's connection is closed; it is terminated exactly once, nothing
+// stays blocked, and a witness keeps receiving.
+func VerifC14OwnQueueFull() {
+	be := newRecBackend()
+	be.SessionQueueSize = 1
+	be.ClientInflightMessages = 1
+	w, wconn := startClient(be, mkConnect("w", true, nil), false)
+	ws := packet.NewSubscribe()
+	ws.ID = 1
+	ws.Subscriptions = []packet.Subscription{{Topic: "m", QOS: 0}}
+	wconn.in <- ws
+	vQuiesce()
+	c, conn := startClient(be, mkConnect("c", vBool("clean"), nil), false)
+	s := packet.NewSubscribe()
+	s.ID = 1
+	s.Subscriptions = []packet.Subscription{{Topic: "t", QOS: 1}}
+	conn.in <- s
+	vQuiesce()
+	for i := 0; i < 4 && !conn.isClosed(); i++ {
+		p := packet.NewPublish()
+		p.Message = packet.Message{Topic: "t", Payload: []byte{byte(i)}, QOS: 1}
+		p.ID = packet.ID(10 + i)
+		conn.in <- p
+		vQuiesce()
+	}
+	vAssert(countType(conn, packet.PUBLISH) == 1, "window of 1 respected")
+	if conn.isClosed() {
+		vCover("c14-own-queue-full-closed")
+		vAssert(chanClosed(c.Closed()), "the offender's closed signal fires")
+		vAssert(be.terminatesOf(c) == 1, "the backend is told about its termination exactly once")
+	}
+	vAssert(!wconn.isClosed() && !chanClosed(w.Closed()), "the witness stays connected")
+	pub, _ := mkClient(be.MemoryBackend, "p", true)
+	vAssert(be.MemoryBackend.Publish(pub, &packet.Message{Topic: "m", Payload: []byte{9}}, nil) == nil, "marker publish")
+	vQuiesce()
+	vAssert(countType(wconn, packet.PUBLISH) == 1, "the witness still receives messages")
+	if conn.isClosed() {
+		vAssert(vLive() == 4, "only the witness's goroutines are left")
+	}
+	vCover("c14-own-queue-full-end")
+}
